@@ -45,35 +45,35 @@ theorem search_sound (exp : NMap Resp) (fuel : Nat) (r : RState σ Req Resp) (h 
   | zero => simp [search] at hs
   | succ fuel ih =>
     unfold search at hs
-    rw [Bool.or_eq_true] at hs
-    rcases hs with h1 | h2
-    · cases h with
-      | nil => exact ⟨[], rfl, rfl⟩
-      | cons e es =>
-        simp only at h1
-        cases he : stepEv step r e with
-        | none => rw [he] at h1; cases h1
-        | some r' =>
-          rw [he] at h1
-          obtain ⟨log, hl, hv⟩ := ih r' es (fun x hx => hnl x (by simp [hx])) h1
-          refine ⟨e :: log, ?_, ?_⟩
-          · rw [history_cons_of_not_lin e (hnl e (by simp)), hl]
-          · show (match stepEv step r e with | none => none | some r' => replay step r' log).isSome
-            rw [he]; exact hv
-    · rw [List.any_eq_true] at h2
-      obtain ⟨p, _, hp⟩ := h2
-      rw [Bool.and_eq_true] at hp
-      have hp2 := hp.2
-      cases he : stepEv step r (.lin p.1 (step r.s p.2).2) with
-      | none => rw [he] at hp2; cases hp2
+    cases h with
+    | nil => exact ⟨[], rfl, rfl⟩
+    | cons e es =>
+      simp only at hs
+      cases he : stepEv step r e with
       | some r' =>
-        rw [he] at hp2
-        obtain ⟨log, hl, hv⟩ := ih r' h hnl hp2
-        refine ⟨.lin p.1 (step r.s p.2).2 :: log, ?_, ?_⟩
-        · rw [history_cons_lin, hl]
-        · show (match stepEv step r (.lin p.1 (step r.s p.2).2) with
-            | none => none | some r' => replay step r' log).isSome
+        rw [he] at hs
+        obtain ⟨log, hl, hv⟩ := ih r' es (fun x hx => hnl x (by simp [hx])) hs
+        refine ⟨e :: log, ?_, ?_⟩
+        · rw [history_cons_of_not_lin e (hnl e (by simp)), hl]
+        · show (match stepEv step r e with | none => none | some r' => replay step r' log).isSome
           rw [he]; exact hv
+      | none =>
+        rw [he] at hs
+        simp only at hs
+        rw [List.any_eq_true] at hs
+        obtain ⟨p, _, hp⟩ := hs
+        rw [Bool.and_eq_true] at hp
+        have hp2 := hp.2
+        cases hl1 : stepEv step r (.lin p.1 (step r.s p.2).2) with
+        | none => rw [hl1] at hp2; cases hp2
+        | some r' =>
+          rw [hl1] at hp2
+          obtain ⟨log, hl, hv⟩ := ih r' (e :: es) hnl hp2
+          refine ⟨.lin p.1 (step r.s p.2).2 :: log, ?_, ?_⟩
+          · rw [history_cons_lin, hl]
+          · show (match stepEv step r (.lin p.1 (step r.s p.2).2) with
+              | none => none | some r' => replay step r' log).isSome
+            rw [hl1]; exact hv
 
 theorem checkLinOne_sound (s0 : σ) (h : List (Ev Req Resp)) (hc : checkLinOne step s0 h = true) :
     Linearizable step s0 h := by
